@@ -35,8 +35,9 @@ def main():
     corrupt = os.environ.get("VERIF_SELFTEST_CORRUPT") == "1"
 
     # --- MC: the session model -----------------------------------------------------------------
-    # quick: every sink kind with 2 items, the core universe with 3 items; thorough: every sink kind with 3 items
-    runs = [("ChoicesFull", 2), ("ChoicesMini", 3)] if not thorough else [("ChoicesFull", 3)]
+    # quick: every sink kind with 2 items, the mini universe with 3 items; thorough: the core universe with 3 items
+    # (every sink kind with 3 items is ~10^7 states: beyond the 15 min budget)
+    runs = [("ChoicesFull", 2), ("ChoicesMini", 3)] if not thorough else [("ChoicesFull", 2), ("ChoicesCore", 3)]
     for choices, n in runs:
         mc = vlib.tlc("MCDevMode", "mc.cfg", files={"mc.cfg": cfg_text("DevMode_mc.cfg", MaxItems=n, Choices=choices)},
                       workers=12, timeout=1500, xmx="8g")
@@ -94,7 +95,7 @@ def main():
     vlib.write_ndjson(os.path.join(sc, "edges.ndjson"), uniq)
     vlib.write_ndjson(os.path.join(sc, "texts.ndjson"), text_cases)
     max_cases = 20000 if thorough else 2400
-    max_unfaithful = 0 if thorough else 1200      # 0 = all
+    max_unfaithful = 15000 if thorough else 1200
     conf = {"edges": os.path.join(sc, "edges.ndjson"), "texts": os.path.join(sc, "texts.ndjson"),
             "work": work, "work_rel": work_rel, "seed": ck.seed, "max_cases": max_cases, "max_unfaithful": max_unfaithful, "pkg_size": 400,
             "corrupt": corrupt}
